@@ -226,6 +226,8 @@ static void act (char *line)
           return;
         if (unread[k] == 0 && ready_count () >= READY_MAX)
           return;
+        if (strchr (tok[2], '!'))
+          return;			/* `!` shell escapes are outside the model: such data is never sent */
       }
       for (char *p = tok[2]; *p && len < (int) sizeof data - 2; p++)
         if (*p == '~')
